@@ -239,6 +239,23 @@ def _run(ck, m):
     ck.ob('C14.c', short(fb.id), 'secondary-arm-sends-nothing', not sec and not outside,
           'a node in the Secondary role fans nothing out' if not sec and not outside else
           'the fan-out sends in the Secondary role at %s' % [fb.loc(x) for x in sec + outside], fb.loc(sbi))
+    # the role that routes a message is read after the message was received: a role read before the wait is the role the node had
+    # when it went idle (a StartingUp node claimed by set-primary while idle would fan its first copy out to everybody)
+    role_calls = set()
+    for r in origins(fb, fb.term(sbi)['o']):
+        if r[0] == 'discr':
+            for r2 in core.place_origins(fb, fb.blocks[r[1]]['s'][r[2]]['r']['p'], stop_at_calls=True):
+                if r2[0] == 'call':
+                    role_calls.add(r2[1])
+    recvs = [bi for bi, t_ in fb.calls() if callee_decl(t_) in ('futures::Future::poll', 'std::future::Future::poll') or
+             callee_decl(t_).endswith('StreamExt::next')]
+    polls = [bi for bi, t_ in fb.calls() if callee_decl(t_).endswith('Future::poll')]
+    fresh = bool(role_calls) and bool(polls) and all(any(fb.dominates(p_, rc) for p_ in polls) for rc in role_calls)
+    ck.ob('C14.c', short(fb.id), 'role-read-after-receive', fresh,
+          'the routing role is read after the message was taken from the channel' if fresh else
+          'the role that routes a message is read before the loop waits for it (role call at %s): the first message after a role change that '
+          'happened while the loop was idle is routed with the previous role — a node that was StartingUp fans a copy out to every member, '
+          'the primary included, which applies and replicates it again' % [fb.loc(x) for x in role_calls], fb.loc(sbi))
     ck.ob('C14.c', short(fw.id), 'forwarder-primary-only', True,
           'the forwarder sends only under the Primary arm of the member role (anchor predicate of the forwarder)', '%s:%s' % (fw.file, fw.line))
     # ---- (d) ---------------------------------------------------------------------------
